@@ -89,6 +89,24 @@ theorem stripTail_eq (dst : Bytes) : Trans.deflater_Compress_stripTail dst = .ok
   · have hI : ¬ ((dst.length : Int) ≥ 4) := by omega
     simp [hI, h4]
 
+/-- the same removal in `flateWriter.Flush` (the last frame of a streamed compressed message) -/
+theorem flush_stripTail_eq (buf : Bytes) : Trans.flateWriter_Flush_stripTail buf = .ok (Writer.stripTail buf) := by
+  unfold Trans.flateWriter_Flush_stripTail Writer.stripTail
+  simp only [Int.ofNat_eq_natCast]
+  congr 1
+  by_cases h4 : buf.length ≥ 4
+  · have hI : ((buf.length : Int) ≥ 4) := by omega
+    have hn : ((buf.length : Int) - 4).toNat = buf.length - 4 := by omega
+    simp only [hI, hn, h4, decide_true, if_true, true_and]
+    have hl : (buf.drop (buf.length - 4)).length = 4 := by simp; omega
+    generalize buf.drop (buf.length - 4) = t at hl
+    match t, hl with
+    | [a, b, c, d], _ =>
+      rw [u32be_4]
+      simp
+  · have hI : ¬ ((buf.length : Int) ≥ 4) := by omega
+    simp [hI, h4]
+
 /-- `compressData` = `Writer.compressData`, for a compressor that succeeds.  `hlen`: the buffer still holds the 14 padding
 bytes after the strip (the compressor's output is never shorter than its trailer) and is below 2^62 bytes. -/
 theorem compressData_eq (cfg : Writer.Cfg) (codec : Codec) (cps : Win) (opcode : UInt8) (payload : List Bytes) (buf : Bytes)
